@@ -58,6 +58,7 @@ def verifySlotP (h : Query → Bytes) (cp : CurveParams) (p : Proof) (q key : By
           else
             if canonP h cp slot.gR == h (.ecMulGen cp.curve s) && slot.encR == e then .ok () else .err .verificationFailed
 
+set_option linter.unusedSimpArgs false in
 theorem verifySlot_id (h : Query → Bytes) (cp : CurveParams) (p : Proof) (q key : Bytes) (n L : ℕ) (ch : Bytes) (i : ℕ) :
     Id.run (verifySlot (pureO h) cp p q key n L ch i) = verifySlotP h cp p q key n L ch i := by
   unfold verifySlot verifySlotP
